@@ -94,6 +94,33 @@ Theorem c09_early_callers_served maxq im ls s c :
 Proof. exact (early_callers_served maxq im ls s c). Qed.
 Print Assumptions c09_early_callers_served.
 
+(** The pipelined upstreams as pkg/upstream/upstream.go configures them (pairs regenerated from NewUpstream on
+    every run: queue limit while dialing, limit of the dialled connection): the premise of
+    [c09_early_callers_served] holds for each, so no query queued during a dial is refused by the connection
+    that dial produces. *)
+Theorem c09_configured_limits_admit_queued p :
+  In p upstream_pipeline_limits -> fst p <= snd p.
+Proof.
+  intros Hp.
+  assert (H : forallb (fun q : N * N => fst q <=? snd q) upstream_pipeline_limits = true) by (vm_compute; reflexivity).
+  rewrite forallb_forall in H. apply N.leb_le, H, Hp.
+Qed.
+Print Assumptions c09_configured_limits_admit_queued.
+
+Theorem c09_configured_early_callers_served p ls s c :
+  In p upstream_pipeline_limits ->
+  lrun (linit (fst p) (snd p)) ls = Some s ->
+  qpc (lcalls s c) = QEarlyGo -> iclosed s = false ->
+  exists s', lstep s (ZReReserve c) = Some s' /\ qpc (lcalls s' c) = QInner /\ qres (lcalls s' c) = None.
+Proof.
+  intros Hp Hr Hq Hc.
+  exact (c09_early_callers_served (fst p) (snd p) ls s c Hr (c09_configured_limits_admit_queued p Hp) Hq Hc).
+Qed.
+Print Assumptions c09_configured_early_callers_served.
+
+Example c09_configured_limits_nonvacuous : upstream_pipeline_limits <> [].
+Proof. discriminate. Qed.
+
 (** While dialing: below the queue limit a caller is admitted, at the limit refused (nothing counted). *)
 Theorem c09_lazy_admits_while_dialing s c :
   ldial s = Dialing -> lfast s = 0 -> qpc (lcalls s c) = QIdle -> ~ In c (llive s) ->
